@@ -754,6 +754,9 @@ func snapIndex(snaps []string) int {
 	best := -1
 	for _, s := range snaps {
 		var idx, off int
+		if strings.HasSuffix(s, ".tmp") {
+			continue // an unfinished snapshot is never loaded
+		}
 		if _, err := fmt.Sscanf(filepath.Base(s), "chunk_snapshot.%d.%d", &idx, &off); err == nil && idx > best {
 			best = idx
 		}
